@@ -1533,6 +1533,22 @@ func paramCalledAtMostOnce(p *Prog, f *FuncInfo, pv *types.Var) (bool, string) {
 
 func underCASGuard(p *Prog, f *FuncInfo, n ast.Node) bool {
 	in := info(f)
+	// guard-clause form: `if !CompareAndSwap(..) { return .. }` before n, or n in the else branch of it
+	for _, pc := range polarConds(p, n) {
+		e, pos := unparen(pc.cond), pc.positive
+		for {
+			if u, isNot := e.(*ast.UnaryExpr); isNot && u.Op == token.NOT {
+				e, pos = unparen(u.X), !pos
+				continue
+			}
+			break
+		}
+		if call, ok := e.(*ast.CallExpr); ok && pos {
+			if fn := callee(in, call); fn != nil && strings.HasPrefix(fn.Name(), "CompareAndSwap") {
+				return true
+			}
+		}
+	}
 	for cur := p.Parent(n); cur != nil; cur = p.Parent(cur) {
 		if ifs, ok := cur.(*ast.IfStmt); ok && n.Pos() >= ifs.Body.Pos() && n.End() <= ifs.Body.End() {
 			cas := false
